@@ -502,7 +502,8 @@ class Check:
                               "Mathlib v4.33 modules imported by proof files",
                               "hand-written model tied to the code by the correspondence run reported here",
                               "translators harness/translate*.py (literals, kernels, accessor methods, assembly, tracking, selection, "
-                              "constructors, C-text digests) and the numpy/xarray reading written down in Model/*Rt.lean, NpArr.lean"],
+                              "constructors, regridding, smoothing, frame IR with its fresh/view tables, axis/rechunk audit, C-text digests) "
+                              "and the numpy/xarray reading written down in Model/*Rt.lean, NpArr.lean, DimSem.lean, FrameIR.lean"],
                 theorems=a["theorems"],
             )
         elif a.get("obligations"):
